@@ -260,7 +260,10 @@ def check_C11(res, tier, seed, replay):
             prog, args, k, P, g = j
             to = 100 if P else 120
             rc, timedout, so, se, dt = run_demo(exes[prog], args, to, P)
-            if timedout:   # believed only if it repeats
+            tries = 0
+            # a watchdog expiry or a death by signal (mpiexec reports 128+n) is believed only if it repeats
+            while (timedout or rc < 0 or rc >= 128) and tries < 2:
+                tries += 1
                 rc, timedout, so, se, dt = run_demo(exes[prog], args, to, P)
             return demo_event(prog, ' '.join(args[:-1]), k, P, g, rc, timedout, so, se)
         seqjobs = [j for j in jobs if j[3] is None]
